@@ -657,7 +657,7 @@ def correspondence(run):
     allgames = [(meta, g) for _, games in parts for (meta, g) in games]
     # heavy (long / many-candidate) games are spread over the shards
     order = sorted(range(len(allgames)), key=lambda i: -sum(len(a["cands"]) + 3 for a in allgames[i][1]["answers"]))
-    nsh = max(1, (len(allgames) + 5) // 6)
+    nsh = max(1, min(len(allgames), max(core.NPROC, (len(allgames) + 17) // 18)))   # start-up dominates small shards
     shards = [[] for _ in range(nsh)]
     for r, i in enumerate(order):
         shards[r % nsh].append(allgames[i])
